@@ -119,7 +119,7 @@ def CopySt.finish (c : CopySt) (src : Side) (failed : Bool) : CopySt :=
 
 /-- is the label enabled? -/
 def enabled (c : CopySt) : Label → Bool
-  | .chunk s k => !c.done s && decide (0 < k) && decide (k ≤ (c.todo s).length)
+  | .chunk s k => !c.done s && Nat.blt 0 k && Nat.ble k (c.todo s).length
   | .eof s => !c.done s && (c.todo s).isEmpty
   | .fail s => !c.done s
 
@@ -157,6 +157,10 @@ structure Env where
   targetStream : Bytes           -- everything the remote side sends
   sched : List Label             -- interleaving of the two copy loops
 deriving Repr
+
+/-- the two copy loops on what is left of the client's stream after `consumed` bytes were read by the handler itself -/
+def copyRun (e : Env) (consumed : Nat) : CopySt :=
+  runSched (CopySt.init (e.clientStream.drop consumed) e.targetStream) e.sched
 
 /-- evaluation of a condition atom -/
 def evalAtom (e : Env) (payload : Bytes) (listenerWait : Bool) : Atom → Bool
@@ -259,12 +263,12 @@ def execStep (e : Env) (s : St) : Step → St
     if e.proceedOk then { s with proceeded := true } else s.ret
   | .copy =>
     -- BidirectionalCopy(clientConn = left, remoteConn = right)
-    let c := runSched (CopySt.init (e.clientStream.drop s.consumed) e.targetStream) e.sched
-    let s := s.emit (.copied c.rxR c.rxL)
-    let s := if c.cwR then s.emit (.closeWrite .right) else s
-    let s := if c.cwL then s.emit (.closeWrite .left) else s
-    if c.doneL && c.doneR then { s with nl2r := c.counter .nl2r, nr2l := c.counter .nr2l }
-    else { (s.emit .blocked) with returned := true, hung := true }
+    let c := copyRun e s.consumed
+    let acts : List Action := [.copied c.rxR c.rxL] ++ (if c.cwR then [.closeWrite .right] else []) ++
+      (if c.cwL then [.closeWrite .left] else [])
+    if c.doneL && c.doneR then
+      { s with nl2r := c.counter .nl2r, nr2l := c.counter .nr2l, trace := s.trace ++ acts }
+    else { s with returned := true, hung := true, trace := s.trace ++ acts ++ [.blocked] }
   | .addPayloadLen => setCounter s payloadAddedTo (· + s.req.payload.length)
   | .collect => s.emit (.collect s.req.user (getCounter s collectDown) (getCounter s collectUp))
 
@@ -285,6 +289,41 @@ def handleConn (e : Env) : List Action :=
 
 /-- final interpreter state (for the theorems that speak about more than the trace) -/
 def finalSt (e : Env) (r : Req) : St := runSteps e handleConnProgram { req := r }
+
+
+/-! ## Observables of an action list -/
+
+def otherSide : Side → Side
+  | .left => .right
+  | .right => .left
+
+/-- the part of the copy state owned by the loop that reads from `s`: its input, its flags, its counter, and what it
+has written / closed on the other side -/
+def loopView (c : CopySt) : Side → (Bytes × Bool × Bool × Nat × Bytes × Bool)
+  | .left => (c.todoL, c.doneL, c.failL, c.nL, c.rxR, c.cwR)
+  | .right => (c.todoR, c.doneR, c.failR, c.nR, c.rxL, c.cwL)
+
+/-- bytes handed to the remote side: DialStream's payload, then what the copy wrote -/
+def targetReceived : List Action → Bytes
+  | [] => []
+  | .dial _ p :: t => p ++ targetReceived t
+  | .copied r _ :: t => r ++ targetReceived t
+  | _ :: t => targetReceived t
+
+/-- bytes written to the client by the copy -/
+def clientReceived : List Action → Bytes
+  | [] => []
+  | .copied _ l :: t => l ++ clientReceived t
+  | _ :: t => clientReceived t
+
+def dialCount : List Action → Nat
+  | [] => 0
+  | .dial _ _ :: t => dialCount t + 1
+  | _ :: t => dialCount t
+
+/-- the wait decision in closed form -/
+def waits (e : Env) (r : Req) : Bool :=
+  r.payload.isEmpty && e.clientNative && (!e.serverNative && !e.waitDisabled)
 
 /-! ## Rendering for the line protocol -/
 
